@@ -282,7 +282,13 @@ impl MdkSqliteStorage {
 
         // If the database exists, verify it's encrypted before trying to use the key.
         // This provides a clearer error than letting apply_encryption fail.
-        if file_path.exists() && !encryption::is_database_encrypted(file_path)? {
+        // A zero-length file is not a database yet: it is what an interrupted first creation
+        // leaves behind (the file is pre-created before anything is written to it), and
+        // refusing it would make the path unusable for good.
+        let is_empty_file = std::fs::metadata(file_path)
+            .map(|m| m.is_file() && m.len() == 0)
+            .unwrap_or(false);
+        if file_path.exists() && !is_empty_file && !encryption::is_database_encrypted(file_path)? {
             return Err(Error::UnencryptedDatabaseWithEncryption);
         }
 
